@@ -26,6 +26,7 @@ ONE = ('ONE',)
 
 # ---------------------------------------------------------------------------------------------------- spaces
 ASSUME_A1 = True     # no current source is an inductor (inductors are Z=0,V=0 branches = ideal-voltage-source type)
+INDUCTANCE_DICTS = {'l_values'}      # names of the value dictionaries that play the role of l_values (extended when a builder summary is instantiated)
 
 
 def flat(s):
@@ -34,8 +35,8 @@ def flat(s):
         base, filt = s[1], s[2]
         if base[0] == 'CAT':
             return [y for part in flat(base) for y in flat(('SUB', part, filt))]
-        if ASSUME_A1 and base[0] == 'S' and base[1].split('@')[0] == 'is_current_source' and filt in ('in:l_values', 'notin:l_values'):
-            return [] if filt == 'in:l_values' else [base]
+        if ASSUME_A1 and base[0] == 'S' and base[1].split('@')[0] == 'is_current_source' and isinstance(filt, str) and filt.split(':', 1)[0] in ('in', 'notin') and filt.split(':', 1)[1] in INDUCTANCE_DICTS:
+            return [] if filt.startswith('in:') else [base]
         if base[0] == 'S' and filt == 'pred:' + base[1].split('@')[0]: return [base]       # filtering by the defining predicate is the identity
         if base[0] == 'SUB': return [('SUB', x, filt) for x in flat(base)]
     return [s]
